@@ -16,6 +16,25 @@ def sources():
                         {'_release_and_notify', 'is_stop_iteration'})
 
 
+def auto_fields(spec, cls_src):
+  """Fields that __init__ initialises with a bool/int constant and that the spec does not know yet (so that a source
+  change which adds a simple flag or counter is still encodable)."""
+  import ast
+  init = cls_src.get('__init__')
+  if init is None:
+    return
+  for node in ast.walk(init):
+    if isinstance(node, ast.Assign) and len(node.targets) == 1 and isinstance(node.targets[0], ast.Attribute) and \
+        isinstance(node.targets[0].value, ast.Name) and node.targets[0].value.id == 'self' and isinstance(node.value, ast.Constant):
+      f, v = node.targets[0].attr, node.value.value
+      if f in spec.fields or f in spec.prims or f in spec.consts:
+        continue
+      if isinstance(v, bool):
+        spec.fields[f] = ('bool', int(v))
+      elif isinstance(v, int):
+        spec.fields[f] = ('int', v)
+
+
 def queue_spec(name, sysm, max_enqueuer, qcap, qmax, timeout='TO', ignore_error=0, max_batch_size=4):
   """One IteratorQueue instance. max_enqueuer / qcap / ignore_error may be parameter names."""
   prog = F.ObjSpec(name + '_progress', 'Progress', {'cnt': ('int', 0)})
@@ -30,6 +49,7 @@ def queue_spec(name, sysm, max_enqueuer, qcap, qmax, timeout='TO', ignore_error=
       'timeout': F.Val('int', e=('param', timeout)) if isinstance(timeout, str) else None,
       'ignore_error': F.Val('bool', e=('param', ignore_error)) if isinstance(ignore_error, str) else bool(ignore_error),
   })
+  auto_fields(spec, sources().get('IteratorQueue', {}))
   sysm.objects[name] = spec
   sysm.objects[name + '_progress'] = prog
   for l in ('.D', '.E', '.S'):
@@ -72,6 +92,30 @@ def consumer():
       {log}.err(e)
       return
     {log}.item(vs)
+'''
+
+CONSUMER_GET_STOP_GET = '''
+def consumer():
+  # what MultiplexIterator.__next__ does on an error: stop the queue, re-raise; a later read must still see the error
+  while True:
+    try:
+      v = q.get()
+    except StopIteration as e:
+      {log}.stop(e)
+      return
+    except Exception as e:
+      q.maybe_stop()
+      try:
+        v2 = q.get()
+      except StopIteration as e2:
+        {log}.stop(e2)
+        return
+      except Exception as e2:
+        {log}.err(e2)
+        return
+      {log}.item(v2)
+      return
+    {log}.item(v)
 '''
 
 STOPPER = '''
@@ -117,7 +161,7 @@ def build_queue_system(nprod, items, ncons, consumer='get', qcap='CAP', caps=(0,
   for p in range(nprod):
     sysm.threads.append(comp.compile_thread(f'producer{p}', PRODUCER.format(src=f'SRC{p}')))
   for c in range(ncons):
-    tmpl = CONSUMER_GET if consumer == 'get' else CONSUMER_BATCH
+    tmpl = {'get': CONSUMER_GET, 'batch': CONSUMER_BATCH, 'get-stop-get': CONSUMER_GET_STOP_GET}[consumer]
     sysm.threads.append(comp.compile_thread(f'consumer{c}', tmpl.format(log=f'LOG{c}', bs=batch[0], block=block[0])))
   if stopper is not None:
     exc = {'stop': 'None', 'error': 'UserError(9)'}[stopper]
@@ -204,6 +248,8 @@ def real_queue(sched, enc, name, cap, max_enqueuer, timeout, ignore_error=False)
   """A real IteratorQueue whose primitives and racy fields are controlled by `sched`."""
   from ml_metrics._src.utils import iter_utils
   from . import bmc_replay as R
+  from absl import logging as _absl_logging
+  _absl_logging.set_verbosity(_absl_logging.FATAL)
   q = iter_utils.IteratorQueue(cap, max_enqueuer=max_enqueuer, timeout=timeout, ignore_error=ignore_error)
   racy = sorted({r[2] for r in enc.racy if r[0] == 'g' and r[1] == name})
   cls = type('IteratorQueueUnderReplay', (iter_utils.IteratorQueue,), {f: R.RacyField(sched, name, f) for f in racy})
@@ -270,4 +316,88 @@ def c04_ok_py(meta, logs):
       seq = [e[2] for e in lg.entries if e[0] == 0 and (e[2] - 1) // 16 == p]
       if seq != sorted(seq):
         return False, f'{name} received elements of producer {p} out of order: {seq}'
+  return True, ''
+
+
+def items_sane(enc, sysm, st, conj):
+  """No element twice, per-producer order inside each consumer, only elements that were really produced."""
+  import z3
+  m = sysm.meta
+  logs = [f'LOG{c}' for c in range(m['ncons'])]
+  ents = {lg: [(j, st[('log', lg, j, 'tag')], st[('log', lg, j, 'kind')], st[('log', lg, j, 'val')]) for j in range(sysm.logs[lg])] for lg in logs}
+  for p in range(m['nprod']):
+    for i in range(m['items'][p]):
+      v = 16 * p + 1 + i
+      cnt = z3.Sum([z3.If(z3.And(z3.ULT(B.BV(j), st[('loglen', lg)]), tag == 0, val == v), 1, 0) for lg in logs for j, tag, kind, val in ents[lg]])
+      conj.append(cnt <= 1)
+  valid = [16 * p + 1 + i for p in range(m['nprod']) for i in range(m['items'][p])]
+  for lg in logs:
+    ln = st[('loglen', lg)]
+    es = ents[lg]
+    for j, tag, kind, val in es:
+      conj.append(z3.Implies(z3.And(z3.ULT(B.BV(j), ln), tag == 0), z3.Or(*[val == v for v in valid]) if valid else z3.BoolVal(False)))
+      conj.append(z3.Implies(z3.ULT(B.BV(j + 1), ln), tag == 0))         # a terminal event is the last entry
+    for a in range(len(es)):
+      for b in range(a + 1, len(es)):
+        ja, ta, ka, va = es[a]; jb, tb, kb, vb = es[b]
+        conj.append(z3.Implies(z3.And(z3.ULT(B.BV(jb), ln), ta == 0, tb == 0, z3.LShR(va - 1, 4) == z3.LShR(vb - 1, 4)), z3.ULT(va, vb)))
+  return ents
+
+
+def c05_ok(enc, sysm, st, mode):
+  """Final-state predicate of C05. mode: 'fail' (producer p0 may fail at FAIL0), 'stop' (clean stop request),
+  'stop-error' (stop request with an exception), 'timeout' (timeouts configured, nobody ever feeds/drains)."""
+  import z3
+  m = sysm.meta
+  conj = []
+  ents = items_sane(enc, sysm, st, conj)
+  for lg, es in ents.items():
+    ln = st[('loglen', lg)]
+    conj.append(z3.UGE(ln, 1))
+    for j, tag, kind, val in es:
+      last = ln == j + 1
+      if mode == 'fail':
+        fails = z3.Or(*[z3.ULE(enc.P[f'FAIL{p}'], B.BV(m['items'][p])) for p in range(m['nprod']) if f'FAIL{p}' in enc.P])
+        full = sum(1 << p for p in range(m['nprod'])) + 16 * m['nprod']
+        conj.append(z3.Implies(z3.And(last, fails), z3.And(tag == 2, kind == F.K_USER)))          # the producer's exception, never a clean end
+        conj.append(z3.Implies(z3.And(last, z3.Not(fails)), z3.And(tag == 1, kind == F.K_STOP, val == full)))
+        for p in range(m['nprod']):
+          if f'FAIL{p}' in enc.P:   # nothing produced after the failure point can exist
+            conj.append(z3.Implies(z3.And(z3.ULT(B.BV(j), ln), tag == 0, z3.LShR(val - 1, 4) == p), z3.ULT(val - (16 * p + 1), enc.P[f'FAIL{p}'])))
+      elif mode == 'stop':
+        conj.append(z3.Implies(last, z3.And(tag == 1, kind == F.K_STOP)))
+      elif mode == 'stop-error':
+        conj.append(z3.Implies(last, z3.Or(z3.And(tag == 2, kind == F.K_USER), z3.And(tag == 1, kind == F.K_STOP))))
+      elif mode == 'timeout':
+        conj.append(z3.Implies(last, z3.Or(z3.And(tag == 2, kind == F.K_TIMEOUT), z3.And(tag == 1, kind == F.K_STOP))))
+  # lock misuse (release of a lock that is not held) is always wrong
+  for tid in range(len(sysm.threads)):
+    conj.append(st[('died', tid)] != 2)
+  return z3.And(*conj)
+
+
+def c05_ok_py(meta, logs, mode, params):
+  allitems = [e[2] for lg in logs.values() for e in lg.entries if e[0] == 0]
+  if len(allitems) != len(set(allitems)):
+    return False, f'element received twice: {sorted(allitems)}'
+  for name, lg in logs.items():
+    if not lg.entries:
+      return False, f'{name} ended without a terminal event'
+    if any(e[0] != 0 for e in lg.entries[:-1]):
+      return False, f'{name}: terminal event before the end {lg.entries}'
+    last = lg.entries[-1]
+    for p in range(meta['nprod']):
+      seq = [e[2] for e in lg.entries if e[0] == 0 and (e[2] - 1) // 16 == p]
+      if seq != sorted(seq):
+        return False, f'{name}: order broken {seq}'
+    if mode == 'fail':
+      fails = [p for p in range(meta['nprod']) if params.get(f'FAIL{p}', 255) <= meta['items'][p]]
+      if fails and not (last[0] == 2 and last[1] == F.K_USER):
+        return False, f'{name} did not observe the producer exception: {lg.entries}'
+      if not fails and not (last[0] == 1 and last[1] == F.K_STOP):
+        return False, f'{name}: no clean end of stream {lg.entries}'
+    if mode == 'stop' and not (last[0] == 1 and last[1] == F.K_STOP):
+      return False, f'{name}: stop request did not end the consumer cleanly {lg.entries}'
+    if mode == 'timeout' and not ((last[0] == 2 and last[1] == F.K_TIMEOUT) or (last[0] == 1)):
+      return False, f'{name}: {lg.entries}'
   return True, ''
